@@ -25,6 +25,23 @@ type iv struct {
 	free []iv
 	arr  *[]iv
 	idx  int
+	tree *constTree // 't': the address of a node of a constant table, 'T': the node as a value
+}
+
+// treeVal: a node of a constant table as a value: leaves become plain constants.
+func treeVal(t *constTree) iv {
+	if t == nil {
+		return iv{}
+	}
+	switch t.kind {
+	case 'i':
+		return ivInt(t.i)
+	case 'b':
+		return ivBool(t.b)
+	case 's':
+		return ivSym("const:" + t.s)
+	}
+	return iv{k: 'T', tree: t}
 }
 
 func ivSym(s string) iv  { return iv{k: 's', s: s} }
@@ -102,6 +119,13 @@ func (e *sengine) val(fr *sframe, v ssa.Value) iv {
 		}
 	case *ssa.Function:
 		return iv{k: 'f', fn: x}
+	case *ssa.Global:
+		// a package-level table that is never written: the address of its (constant) contents
+		if e.ctx != nil {
+			if t := e.ctx.constTreeOf(x.Object()); t != nil {
+				return iv{k: 't', tree: t}
+			}
+		}
 	case *ssa.Parameter:
 		if e.param != nil {
 			if r, ok := e.param(fr.fn, x); ok {
@@ -356,6 +380,17 @@ func (e *sengine) step(p *spath, fr *sframe, in ssa.Instruction) {
 				fr.vals[x] = (*a.arr)[a.idx]
 				return
 			}
+			if a.k == 't' {
+				// unless a hook wants to see the load, the node of the constant table it addresses
+				if e.load != nil {
+					if r, ok := e.load(p, fr, a, x); ok {
+						fr.vals[x] = r
+						return
+					}
+				}
+				fr.vals[x] = treeVal(a.tree)
+				return
+			}
 			if a.k == 'c' { // a captured variable's cell
 				fr.vals[x] = a.tup[0]
 				return
@@ -436,6 +471,18 @@ func (e *sengine) step(p *spath, fr *sframe, in ssa.Instruction) {
 				return
 			}
 		}
+		// a constant table of any shape (tables.go constTree): the entry, or the zero value and false
+		if m, k := e.val(fr, x.X), e.val(fr, x.Index); m.k == 'T' && m.tree.kind == 'M' && k.k == 'i' {
+			ch, found := m.tree.index(k.i)
+			if ch != nil {
+				if x.CommaOk {
+					fr.vals[x] = ivTuple(treeVal(ch), ivBool(found))
+				} else {
+					fr.vals[x] = treeVal(ch)
+				}
+				return
+			}
+		}
 		// a package-level table that is never written: its entries are constants of the program
 		if e.ctx != nil {
 			if ld, ok := x.X.(*ssa.UnOp); ok && ld.Op == token.MUL {
@@ -477,13 +524,31 @@ func (e *sengine) step(p *spath, fr *sframe, in ssa.Instruction) {
 		}
 	case *ssa.FieldAddr:
 		base := e.val(fr, x.X)
+		if base.k == 't' {
+			if f, _ := fieldOfAddr(x); f != nil {
+				if ch := base.tree.field(f.Name()); ch != nil {
+					fr.vals[x] = iv{k: 't', tree: ch}
+				}
+			}
+			return
+		}
 		if base.k == 's' || base.k == 'p' {
 			if f, _ := fieldOfAddr(x); f != nil {
 				fr.vals[x] = iv{k: 'p', s: base.s + "." + f.Name()}
 			}
 		}
+	case *ssa.Index:
+		if a, i := e.val(fr, x.X), e.val(fr, x.Index); a.k == 'T' && i.k == 'i' {
+			if ch, ok := a.tree.index(i.i); ok {
+				fr.vals[x] = treeVal(ch)
+			}
+		}
 	case *ssa.Field:
 		base := e.val(fr, x.X)
+		if base.k == 'T' {
+			fr.vals[x] = treeVal(base.tree.field(fieldNameOf(x.X.Type(), x.Field)))
+			return
+		}
 		if base.k == 's' {
 			fr.vals[x] = ivSym(base.s + "." + fieldNameOf(x.X.Type(), x.Field))
 		}
@@ -497,6 +562,13 @@ func (e *sengine) step(p *spath, fr *sframe, in ssa.Instruction) {
 		}
 	case *ssa.IndexAddr:
 		a, i := e.val(fr, x.X), e.val(fr, x.Index)
+		if (a.k == 't' || a.k == 'T') && i.k == 'i' {
+			// an element of a constant table (tables.go constTree)
+			if ch, ok := a.tree.index(i.i); ok && ch != nil {
+				fr.vals[x] = iv{k: 't', tree: ch}
+			}
+			return
+		}
 		if a.k == 'a' && i.k == 'i' {
 			if i.i < 0 || int(i.i) >= len(*a.arr) {
 				p.notes["index-out-of-range"]++
